@@ -105,6 +105,15 @@ func DecFromString(s string) sdk.Dec {
 // BuildMsg builds the real message for a model message.
 func BuildMsg(w *mc.World, m model.Msg) sdk.Msg {
 	from := BechOf(w, m.From)
+	BechOf := func(w *mc.World, name string) string { // shadowed: honours the upper-case spelling flag
+		if m.Up {
+			return strings.ToUpper(BechOf(w, name))
+		}
+		return BechOf(w, name)
+	}
+	if m.Up {
+		from = strings.ToUpper(from)
+	}
 	switch m.Kind {
 	case model.EntRaise:
 		return &enttypes.MsgUndPurchaseOrder{Purchaser: from, Amount: coin(m.Den, m.AmtI())}
